@@ -119,10 +119,9 @@ def run_case(case):
                 r.known('KF-D1-synthesis', 'non-separable synthesis raises on a short periodization '
                         'level: %s' % b)
                 continue
+            who = ('separable', 'non-separable', a) if not oka else ('non-separable', 'separable', b)
             r.fail('one_sided_reject:%s:%s' % (mode, case['direction']),
-                   '%s raised but %s returned (%s)' % (
-                       ('separable', 'non-separable') if not oka else ('non-separable', 'separable')
-                       + (str(a if not oka else b),)))
+                   '%s raised but %s returned (%s)' % who)
             continue
         a, b = dwtu.to_np(a), dwtu.to_np(b)
         if ana:
